@@ -1,4 +1,4 @@
-import Abverif.Proofs.Lemmas.SessLift
+import Abverif.Proofs.Lemmas.SessLiftX
 /-
 Request ids: the k-th id drawn from a session object is ((k-1) mod idMax)+1 and every request message carries the id drawn for it.
 -/
@@ -100,7 +100,7 @@ syntax "id_frame" : tactic
 macro_rules
   | `(tactic| id_frame) => `(tactic|
       (simp (config := { failIfUnchanged := false }) [request, futureSuccess, cancelDo, cancelMsgs, sendReq, Sess.setTbl, Sess.newFut, Sess.drawId, Sess.unwatch, emitCb, settle, reqIds, reqIdOf, isReqType,
-          apiJoin, apiLeave, Sess.clearTables]
+          apiJoin, apiLeave, apiDisconnect, Sess.clearTables]
        <;> grind [reqIdOf, isReqType]))
 
 theorem emitCb_idrel {s : Sess} (h : IdInv s) {o : SOut} (ho : reqIdOf o = none) : IdRel s (emitCb s o).2 (emitCb s o).1 := by
@@ -168,6 +168,9 @@ theorem apiStep_idrel {s : Sess} (a : Api) (h : IdInv s) : IdRel s (apiStep s a)
   | leave =>
     simp only [apiStep]
     refine IdRel.of_same h ?_ ?_ ?_ ?_ <;> id_frame
+  | disconnect =>
+    simp only [apiStep]
+    refine IdRel.of_same h ?_ ?_ ?_ ?_ <;> id_frame
 
 
 theorem apiStep_idrel_publish_noack {s : Sess} (h : IdInv s) (u : Uri) (a : Args) (k : Kwargs) (o : Option PubOpts) (r : SendRes) :
@@ -198,16 +201,38 @@ theorem rejectList_idrel {s : Sess} (h : IdInv s) (o : Outcome) (fs : List FutId
   rejectList_lift (R := IdRel) (P := IdInv) IdRel.refl IdRel.trans (fun _ r => r.1)
     (fun f o h _ => settle_idrel h f o) h o fs
 
-theorem onLeaveDefault_idrel {s : Sess} (h : IdInv s) (reason : Nat) :
-    IdRel s (onLeaveDefault s reason).2 (onLeaveDefault s reason).1 := by
-  unfold onLeaveDefault
-  have hc : IdInv s.clearTables := h.congr rfl rfl rfl
-  have h1 := rejectList_idrel hc (.closed reason) s.outstanding
-  have h1' : IdRel s _ _ := IdRel.congr_left (s1 := s.clearTables) rfl h1
-  simp only []
-  split
-  · exact IdRel.trans h1' (emitCb_idrel h1.1 rfl)
-  · exact h1'
+theorem reqIds_nil_of {os : List SOut} (h : ∀ o ∈ os, (reqIdOf o).isNone = true) : reqIds os = [] := by
+  simp only [reqIds, List.filterMap_eq_nil_iff]
+  intro o ho
+  simpa using h o ho
+
+theorem reqIdOf_toLost (o : SOut) : reqIdOf (toLost o) = reqIdOf o := by
+  cases o <;> rfl
+
+theorem reqIds_map_toLost (os : List SOut) : reqIds (os.map toLost) = reqIds os := by
+  simp [reqIds, List.filterMap_map, Function.comp_def, reqIdOf_toLost]
+
+theorem idLiftX : LiftX IdRel IdInv (fun o => (reqIdOf o).isNone) where
+  toLift := idLift
+  okOf := by
+    intro o ho
+    cases o <;> simp [reqIdOf, lcOut] at ho ⊢
+    next m => cases hm : m.typ <;> simp [hm, lcMsg, isReqType] at ho ⊢
+  lc := fun h hc => by
+    obtain ⟨e1, e2, _, _, e5⟩ := core_fields hc
+    exact IdRel.of_same h e1 e2 (by rw [e5]; exact h.2) rfl
+  out := fun h ho => out_idrel h (reqIds_nil_of ho)
+  emit := fun h ho => emitCb_idrel h (by simpa using ho)
+  enq := fun k h => IdRel.of_same h rfl rfl (by
+    intro x hx
+    rcases List.mem_append.mp hx with hx | hx
+    · exact h.2 x hx
+    · simp at hx; subst hx; rfl) rfl
+  lostMap := fun r => ⟨r.1, r.2.1, by rw [reqIds_map_toLost]; exact r.2.2⟩
+  cbqOk := fun h o ho => by simpa using h.2 o ho
+  clearQ := fun h => IdRel.of_same h rfl rfl (by simp) rfl
+  rejectAll := fun o h =>
+    IdRel.congr_left (s1 := _) rfl (rejectList_idrel (s := Sess.clearTables _) (h.congr rfl rfl rfl) o _)
 
 theorem popReply_idrel {s : Sess} (h : IdInv s) (kind : Kind) (id : ReqId) (k : Sess → Req → Sess × List SOut)
     (hk : ∀ s1 r, IdInv s1 → IdRel s1 (k s1 r).2 (k s1 r).1) :
@@ -229,16 +254,14 @@ theorem onEstablished_idrel {s : Sess} (h : IdInv s) (beh : List HAct) (m : InMs
   cases m with
   | goodbye =>
     simp only [onEstablished]
-    have h0 : IdInv { s with sessionId := none } := h.congr rfl rfl rfl
-    have h1 := IdRel.congr_left (s := s) rfl (onLeaveDefault_idrel h0 0)
-    have h2 : IdRel s (if s.goodbyeSent then [] else [SOut.send { typ := .goodbye }]) s := by
-      split <;> exact out_idrel h rfl
-    exact IdRel.trans h2 h1
+    split
+    · exact out_idrel h rfl
+    · exact idLiftX.goodbye h _
   | event sub pub p =>
     simp only [onEstablished]
     split
     · exact out_idrel h rfl
-    · exact idLift.dispatch _ h _ _ _ _ _
+    · exact idLift.dispatch h _ _ _ _ _
   | published id pub =>
     simp only [onEstablished]
     exact popReply_idrel h _ _ _ (fun s1 r h1 => settle_idrel h1 _ _)
@@ -257,13 +280,7 @@ theorem onEstablished_idrel {s : Sess} (h : IdInv s) (beh : List HAct) (m : InMs
     · split
       · split
         · exact out_idrel h rfl
-        · split
-          · exact out_idrel h rfl
-          · split
-            · split
-              · exact IdRel.trans (out_idrel h (os := [_]) rfl) (idLift.runAct h none _)
-              · exact out_idrel h rfl
-            · exact IdRel.trans (out_idrel h (os := [_]) rfl) (idLift.runAct h none _)
+        · exact IdRel.trans (out_idrel h (os := [_]) rfl) (idLift.runAct h none _)
       · have h1 : IdInv (s.setTbl .call (adel id s.tCall)) := h.congr rfl rfl rfl
         split
         · exact IdRel.congr_left rfl (IdRel.refl h1)
@@ -293,43 +310,15 @@ theorem onEstablished_idrel {s : Sess} (h : IdInv s) (beh : List HAct) (m : InMs
         split
         · exact IdRel.congr_left e1 (IdRel.refl h1)
         · exact IdRel.congr_left e1 (settle_idrel h1 _ _)
-  | invocation id reg p =>
-    simp only [onEstablished]
-    split
-    · exact out_idrel h rfl
-    · split <;> exact out_idrel h rfl
-  | interrupt id => exact out_idrel h rfl
+  | invocation id reg p rp => exact idLiftX.onInvocation h beh id reg p rp
+  | interrupt id => exact idLiftX.settleInv h id _
   | welcome sid => exact out_idrel h rfl
   | abort => exact out_idrel h rfl
   | challenge => exact out_idrel h rfl
   | other => exact out_idrel h rfl
 
-theorem step_idrel {s : Sess} (e : SEv) (h : IdInv s) : IdRel s (step s e).2 (step s e).1 := by
-  cases e with
-  | api a => exact apiStep_idrel a h
-  | msg m beh =>
-    simp only [step, onMessage]
-    split
-    · split
-      · exact IdRel.of_same h rfl rfl h.2 rfl
-      · exact out_idrel h rfl
-      · exact out_idrel h rfl
-      · exact out_idrel h rfl
-    · exact onEstablished_idrel h beh m
-  | pump =>
-    simp only [step]
-    refine IdRel.of_same h rfl rfl (by simp) ?_
-    simp only [reqIds, List.filterMap_eq_nil_iff]
-    exact h.2
-  | open_ =>
-    simp only [step]
-    exact IdRel.congr_left rfl (emitCb_idrel (s := { s with transport := true, goodbyeSent := false }) (h.congr rfl rfl rfl) rfl)
-  | closed =>
-    simp only [step]
-    split
-    · exact IdRel.congr_left rfl (onLeaveDefault_idrel (s := { s with transport := false, sessionId := none }) (h.congr rfl rfl rfl) 1)
-    · have hc : IdInv ({ s with transport := false } : Sess).clearTables := h.congr rfl rfl rfl
-      exact IdRel.congr_left rfl (rejectList_idrel hc _ _)
+theorem step_idrel {s : Sess} (e : SEv) (h : IdInv s) : IdRel s (step s e).2 (step s e).1 :=
+  idLiftX.step (fun beh m h => onEstablished_idrel h beh m) h e
 
 theorem init_idinv (mode : Sched) : IdInv (init mode) := ⟨rfl, by simp [init]⟩
 
